@@ -71,26 +71,45 @@ theorem storage_rates (p : StorageP) (g : Grid) (T : Nat) (prices : Prices) (a :
     rw [b1, b2] at h1
     exact h1
 
-/-- core of the level theorems: the chain of blocks of a successful set-up and what the rows say on it -/
+/-- the holding-duration indicators are within `[0,1]` by their bounds -/
+theorem indOK_of_bounds (p : StorageP) (g : Grid) (n : Nat) (x : Vec)
+    (hx : InBounds (lowerVec p g n) (upperVec p g n) x) (hs : p.maxStoreDuration.isSome = true) : IndOK p n x := by
+  intro i hi
+  simp only [InBounds, lowerVec_length] at hx
+  have hv : nVars p n = mHold p n + n := by simp [nVars, hs]
+  have hm : nd p n ≤ mHold p n := by unfold mHold; omega
+  obtain ⟨b1, b2⟩ := bounds_bool p g n (mHold p n + i) (by omega) (by omega)
+  have := hx (mHold p n + i) (by omega)
+  rw [b1, b2] at this
+  exact this
+
+/-- core of the level theorems: the chain of blocks of a successful set-up and what the rows say on it
+    (with or without the holding-duration option) -/
 theorem levels_core (p : StorageP) (g : Grid) (T : Nat) (prices : Prices) (a : AssetProblem) (x : Vec)
-    (hend : 0 ≤ p.endLevel ∧ p.endLevel ≤ p.size) (hmh : p.maxStoreDuration = none)
+    (hend : 0 ≤ p.endLevel ∧ p.endLevel ≤ p.size)
     (hb : buildStorage p g T prices = .ok a) (hlen : g.dt.length = g.T) (hpos : 0 < g.T)
     (hf : a.FeasibleRelaxed x) :
     (∀ t, t < g.T → 0 ≤ lev p g g.T x (t + 1) ∧ lev p g g.T x (t + 1) ≤ p.size) ∧
     lev p g g.T x g.T = p.endLevel ∧
-    (∀ aa, p.blocks = some aa → ∀ e ∈ aa, 0 < e → lev p g g.T x e = p.endLevel) := by
+    (∀ aa, p.blocks = some aa → ∀ e ∈ aa, 0 < e → lev p g g.T x e = p.endLevel) ∧
+    (∀ d, p.maxStoreDuration = some d → ∀ t, t < g.T → x (mHold p g.T + t) = 0 → lev p g g.T x (t + 1) ≤ 0) := by
   have hne : g.dt.length ≠ 0 := by omega
   obtain ⟨pr, bl, hbl, _, rfl⟩ := buildStorage_ok p g T prices a hb hne
   obtain ⟨l, rfl, hinc, hlast, hl, haa⟩ := blocksOf_ok p g.T bl hbl hpos
   have hrows := hf.2
   simp only [List.mem_append] at hrows
-  have hI := levelIneq_of_rows p g g.T x (blockPairs (0 :: l)) hmh
-    (fun r hr => hrows r (Or.inl (Or.inl (Or.inl hr)))) (fun r hr => hrows r (Or.inl (Or.inl (Or.inr hr))))
+  have hU : ∀ r ∈ upperRows p g g.T (blockPairs (0 :: l)), r.Sat x := fun r hr => hrows r (Or.inl (Or.inl (Or.inl hr)))
+  have hbnd : ∀ ae ∈ blockPairs (0 :: l), ae.2 ≤ g.T := by
+    intro ae hae
+    have := blockPairs_bounds l 0 hinc ae hae
+    rw [hlast] at this; exact this.2.2
+  have hI := levelIneq_of_rows p g g.T x (blockPairs (0 :: l)) hend (indOK_of_bounds p g g.T x hf.1) hbnd
+    hU (fun r hr => hrows r (Or.inl (Or.inl (Or.inr hr))))
   have h0 : lev p g g.T x 0 = blockStart p 0 := by
     simp [lev, blockStart, cumInfl, sumTo]; grind
-  obtain ⟨c1, c2⟩ := chain_levels p g g.T x hend l 0 hinc h0 hI
+  obtain ⟨c1, c2, c3⟩ := chain_levels p g g.T x hend l 0 hinc h0 hI
   rw [hlast] at c1
-  refine ⟨fun t ht => c1 t (by omega) ht, ?_, ?_⟩
+  refine ⟨fun t ht => c1 t (by omega) ht, ?_, ?_, ?_⟩
   · have := lastOf_mem l 0 hl
     rw [hlast] at this
     exact c2 _ this
@@ -98,8 +117,12 @@ theorem levels_core (p : StorageP) (g : Grid) (T : Nat) (prices : Prices) (a : A
     rcases haa aa h e he with h' | h'
     · omega
     · exact c2 e h'
+  · intro d hmh t ht hind
+    obtain ⟨ae, hae, h1, h2⟩ := blockPairs_cover l 0 t (by omega) (by rw [hlast]; exact ht)
+    exact hold_zero p g g.T x ae.1 ae.2 t d hmh h1 (c3 ae hae)
+      (hU _ (mem_upperRows p g g.T _ ae hae t h1 h2)) hind
 
-/-- **Level bounds, with or without time blocks** (no holding-duration option).  For every storage
+/-- **Level bounds, with or without time blocks, with or without the holding-duration option.**  For every storage
     accepted by the constructor guards whose end level lies in `[0, size]`, every restricted grid and
     block list, every `x` within the bounds and satisfying the rows of `buildStorage`: the physical
     level is in `[0, size]` at every step of the window, equals the end level at the last step of the
@@ -109,7 +132,6 @@ theorem levels_core (p : StorageP) (g : Grid) (T : Nat) (prices : Prices) (a : A
     "level ≤ size at every step" and "level = end level at the last step" contradict each other.) -/
 theorem storage_blocks (p : StorageP) (g : Grid) (T : Nat) (prices : Prices) (a : AssetProblem) (x : Vec)
     (_hg : p.guards = true) (hend : 0 ≤ p.endLevel ∧ p.endLevel ≤ p.size)
-    (hmh : p.maxStoreDuration = none)
     (hb : buildStorage p g T prices = .ok a) (hlen : g.dt.length = g.T)
     (hf : a.FeasibleRelaxed x) :
     (∀ t, t < g.T → 0 ≤ physLevel p g g.T x t ∧ physLevel p g g.T x t ≤ p.size) ∧
@@ -119,31 +141,31 @@ theorem storage_blocks (p : StorageP) (g : Grid) (T : Nat) (prices : Prices) (a 
   refine ⟨?_, ?_, ?_, storage_rates p g T prices a x hb hlen hf.1⟩
   · intro t ht
     rw [physLevel_eq_lev]
-    exact (levels_core p g T prices a x hend hmh hb hlen (by omega) hf).1 t ht
+    exact (levels_core p g T prices a x hend hb hlen (by omega) hf).1 t ht
   · intro hpos
     rw [physLevel_eq_lev]
     have : g.T - 1 + 1 = g.T := by omega
     rw [this]
-    exact (levels_core p g T prices a x hend hmh hb hlen hpos hf).2.1
+    exact (levels_core p g T prices a x hend hb hlen hpos hf).2.1
   · intro aa haa e he hpos hle
     rw [physLevel_eq_lev]
     have : e - 1 + 1 = e := by omega
     rw [this]
-    exact (levels_core p g T prices a x hend hmh hb hlen (by omega) hf).2.2 aa haa e he hpos
+    exact (levels_core p g T prices a x hend hb hlen (by omega) hf).2.2.1 aa haa e he hpos
 
-/-- **Level bounds** (`storage_level_bounds`, no time blocks, no holding-duration option):
+/-- **Level bounds** (`storage_level_bounds`, no time blocks; any MIP options):
     `0 ≤ physLevel t ≤ size` at every active step, `physLevel` at the last step `= end_level`,
     `−cap_in·dt_t ≤ x_in,t ≤ 0 ≤ x_out,t ≤ cap_out·dt_t` (two-variable form; `−cap_in·dt_t ≤ x_t ≤ cap_out·dt_t`
     in the one-variable form). -/
 theorem storage_level_bounds (p : StorageP) (g : Grid) (T : Nat) (prices : Prices) (a : AssetProblem) (x : Vec)
     (hg : p.guards = true) (hend : 0 ≤ p.endLevel ∧ p.endLevel ≤ p.size)
-    (hmh : p.maxStoreDuration = none) (_hnb : p.blocks = none)
+    (_hnb : p.blocks = none)
     (hb : buildStorage p g T prices = .ok a) (hlen : g.dt.length = g.T)
     (hf : a.FeasibleRelaxed x) :
     (∀ t, t < g.T → 0 ≤ physLevel p g g.T x t ∧ physLevel p g g.T x t ≤ p.size) ∧
     (0 < g.T → physLevel p g g.T x (g.T - 1) = p.endLevel) ∧
     (∀ t, t < g.T → RatesOK p g g.T x t) := by
-  obtain ⟨h1, h2, _, h4⟩ := storage_blocks p g T prices a x hg hend hmh hb hlen hf
+  obtain ⟨h1, h2, _, h4⟩ := storage_blocks p g T prices a x hg hend hb hlen hf
   exact ⟨h1, h2, h4⟩
 
 /-- **No simultaneous charge and discharge.**  With the option (two-variable form) and the variables
@@ -299,86 +321,82 @@ theorem storage_wf (p : StorageP) (g : Grid) (T : Nat) (prices : Prices) (a : As
       exact ⟨h1, hstep ▸ hI k hk'⟩
     · exact storage_rows_noN p g g.T _
 
-/-! ### maximum holding duration: what the rows of the code say (F-05d) -/
+/-! ### maximum holding duration (rows after the repair of F-05d: `level_t ≤ level_max_t·ind_t`) -/
 
-/-- **Holding duration, as the code has it** (`max_hold_partial`).  With `max_store_duration = some d`
-    and the `bool_2` variables (`ind_t = x (mHold + t)`) in `{0,1}`, no time blocks:
-    * `ind_t = 0 → physLevel t ≤ start_level + accumulated inflow` — NOT `physLevel t ≤ 0`: the indicator
-      bounds `level − start_level − inflow` (finding F-05d), so the holding duration is enforced only when
-      `start_level = 0` and `inflow = 0`;
-    * for every start step `i` whose window (steps within `d` plus the first one beyond) exists, the
-      indicators in the window do not all equal 1.
-    TARGET (not true of the code): `ind_t = 0 → physLevel t ≤ 0`, and `0 ≤ physLevel t ≤ size`,
-    `physLevel (n−1) = end_level` as in `storage_level_bounds` — with this option the upper rows are
-    `rel_t ≤ b_t·ind_t` with `b_t` possibly negative, so neither the size bound nor the end level is
-    enforced when `start_level + inflow` exceeds `size` resp. `end_level` (see `max_hold_end_level_witness`). -/
-theorem max_hold_partial (p : StorageP) (g : Grid) (T : Nat) (prices : Prices) (a : AssetProblem) (x : Vec) (d : Rat)
-    (hmh : p.maxStoreDuration = some d) (hnb : p.blocks = none)
+/-- **Indicator 0 means empty.**  With `max_store_duration = some d`: at every step of the window whose
+    indicator `ind_t = x (mHold + t)` is 0 the physical level is 0 (`≤ 0` from the repaired "full" row,
+    `≥ 0` from the level bounds; at a block or window end this forces `end_level = 0`). -/
+theorem max_hold_indicator (p : StorageP) (g : Grid) (T : Nat) (prices : Prices) (a : AssetProblem) (x : Vec) (d : Rat)
+    (hend : 0 ≤ p.endLevel ∧ p.endLevel ≤ p.size) (hmh : p.maxStoreDuration = some d)
     (hb : buildStorage p g T prices = .ok a) (hlen : g.dt.length = g.T)
     (hf : a.FeasibleRelaxed x) :
-    (∀ t, t < g.T → x (mHold p g.T + t) = 0 → physLevel p g g.T x t ≤ p.startLevel + cumInfl p g (t + 1)) ∧
-    (∀ t, t < g.T → 0 ≤ physLevel p g g.T x t ∨ t + 1 = g.T) ∧
-    (∀ i sel, i < g.T → holdWindow g g.T d i = some sel →
-      ((sel.map fun k => x (mHold p g.T + i + k)).sum ≤ (sel.length : Rat) - 1)) := by
-  by_cases hT : g.T = 0
-  · refine ⟨fun t ht => by omega, fun t ht => by omega, fun i sel hi => by omega⟩
+    ∀ t, t < g.T → x (mHold p g.T + t) = 0 → physLevel p g g.T x t = 0 := by
+  intro t ht hind
+  have hc := levels_core p g T prices a x hend hb hlen (by omega) hf
+  rw [physLevel_eq_lev]
+  have h1 := (hc.1 t ht).1
+  have h2 := hc.2.2.2 d hmh t ht hind
+  grind
+
+/-- **Holding duration** (`max_hold`).  With `max_store_duration = some d` and the variables flagged boolean
+    in the mapping in `{0,1}`: for every start step `i` whose window — the steps from `i` on whose cumulated
+    length is within `d`, plus the first step beyond (`holdWindow … = some sel`, relative positions) —
+    reaches beyond the limit, the level is 0 at some step of the window; so the level is not `> 0` at all
+    steps of any stretch longer than the limit.  With or without time blocks. -/
+theorem max_hold (p : StorageP) (g : Grid) (T : Nat) (prices : Prices) (a : AssetProblem) (x : Vec) (d : Rat)
+    (hend : 0 ≤ p.endLevel ∧ p.endLevel ≤ p.size) (hmh : p.maxStoreDuration = some d)
+    (hb : buildStorage p g T prices = .ok a) (hlen : g.dt.length = g.T)
+    (hf : a.FeasibleRelaxed x)
+    (hbool : ∀ m ∈ a.mapping, m.isBool = true → x m.var = 0 ∨ x m.var = 1) :
+    ∀ i sel, i < g.T → holdWindow g g.T d i = some sel →
+      (∃ k0 ∈ sel, d < cumDtFrom g i k0) ∧
+      (∃ k ∈ sel, physLevel p g g.T x (i + k) = 0) ∧
+      ¬ (∀ k ∈ sel, 0 < physLevel p g g.T x (i + k)) := by
+  intro i sel hi hw
+  have hzero := max_hold_indicator p g T prices a x d hend hmh hb hlen hf
   have hne : g.dt.length ≠ 0 := by omega
   obtain ⟨pr, bl, hbl, _, rfl⟩ := buildStorage_ok p g T prices a hb hne
-  have hbl' : bl = [(0, g.T)] := by
-    unfold blocksOf at hbl; rw [hnb] at hbl; cases hbl; rfl
-  subst hbl'
   have hrows := hf.2
   simp only [List.mem_append] at hrows
-  refine ⟨?_, ?_, ?_⟩
-  · intro t ht hind
-    have hu : (upperRow p g g.T 0 g.T t).Sat x :=
-      hrows _ (Or.inl (Or.inl (Or.inl (mem_upperRows p g g.T [(0, g.T)] (0, g.T) (by simp) t (by omega) ht))))
-    unfold upperRow at hu
-    rw [hmh] at hu
-    simp only [Row.Sat, Row.eval, List.map_append, List.sum_append, List.map_cons, List.map_nil, List.sum_cons,
-      List.sum_nil, hind] at hu
-    have he := eval_levelCoeffs p g.T 0 t x 0 .U
-    unfold Row.eval at he
-    simp only at he
-    rw [he] at hu
-    rw [physLevel_eq_lev]
-    unfold lev
-    have h0 : sumTo (flow p g.T x) 0 = 0 := rfl
-    have h1 : 0 + (t + 1 - 0) = t + 1 := by omega
-    rw [h1, h0] at hu
-    grind
-  · intro t ht
-    by_cases hl : t + 1 = g.T
-    · exact Or.inr hl
-    · left
-      have := lowerIneq_of_rows p g g.T x [(0, g.T)]
-        (fun r hr => hrows r (Or.inl (Or.inl (Or.inr hr)))) (0, g.T) (by simp) t (by omega) ht
-      simp only [loRhs, hl, if_false, blockInfl, blockStart, if_true] at this
-      rw [physLevel_eq_lev]
-      unfold lev
-      have h0 : sumTo (flow p g.T x) 0 = 0 := rfl
-      have h2 : cumInfl p g 0 = 0 := rfl
-      rw [h0, h2] at this
-      grind
-  · intro i sel hi hw
-    have hr : ({ coeffs := sel.map fun k => (mHold p g.T + i + k, (1 : Rat)), rhs := (sel.length : Rat) - 1, kind := .U } : Row).Sat x := by
-      apply hrows _ (Or.inr _)
-      unfold holdRows
-      rw [hmh]
-      simp only
-      apply List.mem_filterMap.mpr
-      refine ⟨i, List.mem_range.mpr hi, ?_⟩
-      unfold holdRow
-      rw [hw]
-      rfl
-    simp only [Row.Sat, Row.eval, List.map_map] at hr
-    have : ((fun (q : Nat × Rat) => q.2 * x q.1) ∘ fun k => (mHold p g.T + i + k, (1 : Rat)))
-        = fun k => 1 * x (mHold p g.T + i + k) := rfl
-    rw [this] at hr
-    have e : (sel.map fun k => 1 * x (mHold p g.T + i + k)) = sel.map fun k => x (mHold p g.T + i + k) := by
-      apply List.map_congr_left; intro k _; grind
-    rw [e] at hr
-    exact hr
+  have hsel := holdWindow_lt g g.T d i sel hw
+  -- the window row
+  have hr : ({ coeffs := sel.map fun k => (mHold p g.T + i + k, (1 : Rat)), rhs := (sel.length : Rat) - 1, kind := .U } : Row).Sat x := by
+    apply hrows _ (Or.inr _)
+    unfold holdRows
+    rw [hmh]
+    simp only
+    apply List.mem_filterMap.mpr
+    refine ⟨i, List.mem_range.mpr hi, ?_⟩
+    unfold holdRow
+    rw [hw]
+    rfl
+  simp only [Row.Sat, Row.eval, List.map_map] at hr
+  have e0 : ((fun (q : Nat × Rat) => q.2 * x q.1) ∘ fun k => (mHold p g.T + i + k, (1 : Rat)))
+      = fun k => 1 * x (mHold p g.T + i + k) := rfl
+  rw [e0] at hr
+  have e : (sel.map fun k => 1 * x (mHold p g.T + i + k)) = sel.map fun k => x (mHold p g.T + i + k) := by
+    apply List.map_congr_left; intro k _; grind
+  rw [e] at hr
+  -- the indicators are 0/1
+  have h01 : ∀ k ∈ sel, x (mHold p g.T + i + k) = 0 ∨ x (mHold p g.T + i + k) = 1 := by
+    intro k hk
+    have hk' := hsel k hk
+    have hmem : ({ var := mHold p g.T + (i + k), asset := p.name, node := none, kind := .i, step := idxAt g (i + k),
+                   factor := 1, isBool := true, varName := "bool_2" } : MapRow) ∈ Storage.mapping p g g.T := by
+      simp only [Storage.mapping, hmh, Option.isSome_some, if_true, List.mem_append, boolMap, List.mem_map, List.mem_range]
+      exact Or.inr ⟨i + k, by omega, rfl⟩
+    have := hbool _ hmem rfl
+    simp only [← Nat.add_assoc] at this
+    exact this
+  obtain ⟨k, hk, hk0⟩ := exists_zero_of_sum sel (fun k => x (mHold p g.T + i + k)) h01 hr
+  have hlev : physLevel p g g.T x (i + k) = 0 := by
+    apply hzero (i + k) (by have := hsel k hk; omega)
+    rw [← Nat.add_assoc]; exact hk0
+  refine ⟨holdWindow_exceeds g g.T d i sel hw, ⟨k, hk, hlev⟩, ?_⟩
+  intro hall
+  have := hall k hk
+  rw [hlev] at this
+  exact absurd this (by decide)
 
 /-
 TARGET (not proved here; covered by the `storage_readout` correspondence and the oracle `storage.reported`):
@@ -386,10 +404,12 @@ TARGET (not proved here; covered by the `storage_readout` correspondence and the
   `chargeOut p M x (idx t) = −x_in,t` and `dischargeOut p M x (idx t) = −x_out,t` for `x_in ≤ 0 ≤ x_out`
   (one-variable form: `max(0,−x_t)` and `min(0,−x_t)`), and `fill_level_true` for the embedded mapping
   (the proofs above are for the storage's own mapping, i.e. offset 0).
-TARGET (repaired variant, finding F-05d): with the indicator bounding the level itself
-  (`level_t ≤ size·ind_t`), `ind_t = 0 → physLevel t ≤ 0` and the statements of `storage_level_bounds`
-  hold with the option as well.  The code does not do this; see `max_hold_partial` and
-  `max_hold_end_level_witness`.
+HISTORY (finding F-05d, repaired in /repo by e156f4e): before the repair the "full" rows with the option
+  read `rel_t − b_t·ind_t ≤ 0` with `b_t = size − start − inflow_t` (last row: `end − start − inflow`), so
+  `ind_t = 0` only gave `physLevel t ≤ start + inflow_t`, and neither the size bound nor the end level was
+  enforced when `b_t < 0`.  Witness then: size 2, start 2, end 0, limit 1, two steps of length 1, `x = 0`,
+  `ind = 0` was feasible (level 2, 2).  `old_witness_now_rejected` below checks that the repaired rows
+  reject that point.
 -/
 
 /-! ### non-vacuity: concrete instances satisfying the hypotheses, and the F-05d witness -/
@@ -438,8 +458,7 @@ example : (match buildStorage exP exG 8 [] with
 example : feasibleB (buildStorage { exP with noSimult := true, blocks := none } exG 8 [])
     (vecOf [-1, 0, -1, 0, 0, 1, 0, 1, 0, 1, 0, 1]) = true := by decide +kernel
 
-/-- F-05d witness: one-variable storage, size 2, start level 2, end level 0, `max_store_duration = 1`,
-    two steps of length 1 -/
+/-- one-variable storage, size 2, start level 2, end level 0, `max_store_duration = 1`, two steps of length 1 -/
 def exHoldP : StorageP :=
   { name := "s", nodes := ["a"], size := 2, capIn := 2, capOut := 2, startLevel := 2, endLevel := 0,
     costIn := 0, costOut := 0, costStore := 0, effIn := 1, inflow := 0, price := none,
@@ -447,15 +466,16 @@ def exHoldP : StorageP :=
 
 def exHoldG : Grid := { pts := [0, 3600], idx := [0, 1], dt := [1, 1], Dt := [1, 2], df := [1, 1] }
 
-/-- **The code's rows do not enforce the holding duration nor the end level when the start level is not 0**
-    (machine-checked counterexample to the TARGET of `max_hold_partial`): doing nothing, with both
-    indicators 0, satisfies bounds, rows and integrality, yet the level stays at 2 for 2 time units
-    (limit 1) and ends at 2 instead of the end level 0. -/
-theorem max_hold_end_level_witness :
-    feasibleB (buildStorage exHoldP exHoldG 2 []) (vecOf [0, 0, 0, 0]) = true ∧
-    physLevel exHoldP exHoldG 2 (vecOf [0, 0, 0, 0]) 0 = 2 ∧
-    physLevel exHoldP exHoldG 2 (vecOf [0, 0, 0, 0]) 1 = 2 ∧
-    physLevel exHoldP exHoldG 2 (vecOf [0, 0, 0, 0]) 1 ≠ exHoldP.endLevel ∧
-    holdWindow exHoldG 2 1 0 = some [0, 1] := by decide +kernel
+/-- the hypotheses of `max_hold` are satisfiable: emptying the storage in the first step (indicators 0, 0)
+    is feasible, the window of start step 0 is `[0, 1]` (2 time units > limit 1), levels 0, 0 -/
+example : feasibleB (buildStorage exHoldP exHoldG 2 []) (vecOf [2, 0, 0, 0]) = true ∧
+    holdWindow exHoldG 2 1 0 = some [0, 1] ∧
+    (List.range 2).map (physLevel exHoldP exHoldG 2 (vecOf [2, 0, 0, 0])) = [0, 0] := by decide +kernel
+
+/-- the point that witnessed F-05d on the old rows (do nothing, indicators 0: level stays 2 for 2 time units,
+    ends at 2 instead of 0) is rejected by the repaired rows; so is doing nothing with indicators 1, 1 -/
+theorem old_witness_now_rejected :
+    feasibleB (buildStorage exHoldP exHoldG 2 []) (vecOf [0, 0, 0, 0]) = false ∧
+    feasibleB (buildStorage exHoldP exHoldG 2 []) (vecOf [0, 0, 1, 1]) = false := by decide +kernel
 
 end EAO.C05
